@@ -61,6 +61,17 @@ CLAIMED = {
         note="Assumed: the power flow leaves the element tables unchanged (C08); frames of create_impedance/create_switch/create_ward/"
              "replace_xward_by_ward and read-only topology functions as declared; pandas methods without inplace=True do not mutate. "
              "Not decided: exits by unexpected exceptions, report()."),
+    "C08": dict(
+        text="Proof over all call sites / all paths. (a) ghost counter of auxiliary elements on the real text of _powerflow/_ppci_to_net, "
+             "_optimal_powerflow, _calc_sc, _calc_sc_1ph/_init_ppc with every other callee allowed to raise at its call site: "
+             "aux == 0 on every normal and exceptional exit (the failing call sites are the recorded known findings); pairing of "
+             "_add_dcline_gens (two gens per dcline) and _clean_up (drops exactly the trailing 2*len(dcline) gens / the b2b vscs, for "
+             "res=True and res=False). (b) frame-tracking execution of every (net, ppc, ...) function of build_branch/build_bus/"
+             "build_gen (list read from source, 4 option sets, all paths): no store into any column / row set / binding of the "
+             "user's element tables, including stores through .values views.",
+        note="Assumed: _add_auxiliary_elements/_clean_up atomic; numpy/scipy functions store into their arguments only through out=; "
+             "pandas methods without inplace=True do not mutate; values read from tables are unknown. Not decided: estimation drivers, "
+             "_recycled_powerflow / runpp_3ph clean-up, result tables and net._* keys."),
 }
 
 NOT_APPLICABLE = {
